@@ -1645,3 +1645,188 @@ Proof.
     + intros o Ho. apply H5 in Ho. apply Ord_Q in Ho. apply Ord_Q. rewrite rev_involutive in Ho. tauto.
   - now apply (q_body_post v cs0 seq0).
 Qed.
+
+(* ------------------------------------------------------------------------------------------------ *)
+(* set_contiguous *)
+Lemma mapM_ok {X Y} (g : X -> result Y) l ys : mapM g l = Ok ys -> Forall2 (fun x y => g x = Ok y) l ys.
+Proof.
+  revert ys. induction l as [|x t IH]; intros ys H; simpl in H.
+  - inversion H. constructor.
+  - destruct (g x) as [y|e] eqn:E; [|discriminate]. simpl in H.
+    destruct (mapM g t) as [ys'|e] eqn:E2; [|discriminate]. simpl in H. inversion H; subst.
+    constructor; auto.
+Qed.
+
+Lemma CF_perm_pure v a b : Permutation (ordering a) (ordering b) -> (PureE v a -> PureE v b) /\ (PureF v a -> PureF v b).
+Proof. intros HP. unfold PureE, PureF. split; intros H; eapply Permutation_Forall; eassumption. Qed.
+
+Lemma CF_flat_ret v t : CF v t -> CF v (flat_ret t).
+Proof.
+  assert (HE : forall t, PureE v t -> PureE v (flat_ret t)) by (intros t0; unfold PureE; now rewrite ordering_flat_ret).
+  assert (HF : forall t, PureF v t -> PureF v (flat_ret t)) by (intros t0; unfold PureF; now rewrite ordering_flat_ret).
+  assert (HEl : forall l, Forall (PureE v) l -> Forall (PureE v) (map flat_ret l))
+    by (intros l Hl; apply Forall_map; eapply Forall_impl; [|exact Hl]; auto).
+  assert (HFl : forall l, Forall (PureF v) l -> Forall (PureF v) (map flat_ret l))
+    by (intros l Hl; apply Forall_map; eapply Forall_impl; [|exact Hl]; auto).
+  induction 1 as [t H|t H|es c es2 H1 HC IH|e1 fs e2 H1 H2 H3|e1 x e2 H1 HX IH H3].
+  - apply CF_E. auto.
+  - apply CF_F. auto.
+  - destruct es as [|e es]; [destruct es2 as [|e es2]|].
+    + exact IH.
+    + change (CF v (Node KP (map flat_ret ([] ++ c :: e :: es2)))). rewrite map_app. simpl map.
+      apply (CF_P v [] (flat_ret c) (flat_ret e :: map flat_ret es2)); [|exact IH]. simpl. now apply (HEl (e :: es2)).
+    + assert (E : flat_ret (Node KP ((e :: es) ++ c :: es2)) = Node KP (map flat_ret ((e :: es) ++ c :: es2))).
+      { simpl. destruct (es ++ c :: es2) eqn:E0; [now destruct es|reflexivity]. }
+      rewrite E, map_app. simpl map. apply (CF_P v (flat_ret e :: map flat_ret es) (flat_ret c) (map flat_ret es2)); [|exact IH].
+      change ((flat_ret e :: map flat_ret es) ++ map flat_ret es2) with (map flat_ret (e :: es) ++ map flat_ret es2).
+      rewrite <- map_app. apply HEl. exact H1.
+  - destruct (e1 ++ fs ++ e2) as [|a [|b r]] eqn:E.
+    + apply CF_E. constructor.
+    + simpl. assert (Ha : PureE v a \/ PureF v a).
+      { assert (Hin : In a (e1 ++ fs ++ e2)) by (rewrite E; now left).
+        apply in_app_or in Hin. rewrite Forall_forall in *. destruct Hin as [Hin|Hin]; [left; auto|].
+        apply in_app_or in Hin. destruct Hin; [right|left]; auto. }
+      destruct Ha; [apply CF_E|apply CF_F]; auto.
+    + change (CF v (Node KQ (map flat_ret (a :: b :: r)))). rewrite <- E, !map_app. apply CF_QF; auto.
+  - destruct (e1 ++ x :: e2) as [|a [|b r]] eqn:E.
+    + now destruct e1.
+    + simpl. assert (a = x).
+      { destruct e1 as [|e e1]; [inversion E; reflexivity|]. inversion E as [[E1 E2]]. now destruct e1. }
+      subst a. exact IH.
+    + change (CF v (Node KQ (map flat_ret (a :: b :: r)))). rewrite <- E, map_app. simpl map. apply CF_QX; auto.
+Qed.
+
+Definition Post (v : nat) (t t' : pq) (st : status) : Prop :=
+  StOK v t' st /\ AlmostProper t' /\ (CF v t -> proper t' = true) /\
+  Permutation (ordering t) (ordering t') /\ Ref t' t.
+
+Lemma flat_map_perm2 (l l' : list pq) :
+  Forall2 (fun c c' => Permutation (ordering c) (ordering c')) l l' ->
+  Permutation (flat_map ordering l) (flat_map ordering l').
+Proof. induction 1; simpl; [constructor|]. now apply Permutation_app. Qed.
+
+Lemma pick_E_nonempty v cs seq c :
+  Forall2 (StOK v) cs seq -> Forall (fun c => proper c = true) cs -> In c cs -> PureE v c ->
+  pick_st SEmpty cs seq <> [].
+Proof.
+  induction 1 as [|c0 st cs seq Hc H IH]; intros Hp Hin HE; [destruct Hin|].
+  inversion Hp; subst. rewrite pick_st_cons. destruct Hin as [->|Hin].
+  - rewrite (StOK_E v c st) by assumption. simpl. discriminate.
+  - destruct (status_eqb SEmpty st); [discriminate|]. now apply IH.
+Qed.
+
+Lemma Forall2_trans3 {X} (R1 R2 R3 R : X -> X -> Prop) a b c d :
+  (forall x y z w, R1 x y -> R2 y z -> R3 z w -> R x w) ->
+  Forall2 R1 a b -> Forall2 R2 b c -> Forall2 R3 c d -> Forall2 R a d.
+Proof.
+  intros HR H1. revert c d. induction H1; intros c d H2 H3; inversion H2; subst; inversion H3; subst; constructor; eauto.
+Qed.
+
+Lemma set_contiguous_leaf f v s : set_contiguous f v (Leaf s) = Ok (Leaf s, if memn v s then SFull else SEmpty).
+Proof. destruct f; reflexivity. Qed.
+
+Lemma set_contiguous_node f v k cs :
+  set_contiguous (S f) v (Node k cs) =
+  rbind (mapM (fun c => rmap fst (set_contiguous f v c)) cs) (fun cs1 =>
+  let cs2 := match cs1 with [c] => [flat_inplace c] | _ => map flat_ret cs1 end in
+  rbind (mapM (set_contiguous f v) cs2) (fun res =>
+  match k with
+  | KP => p_cases v (map fst res) (map snd res)
+  | KQ => q_cases v (map fst res) (map snd res)
+  end)).
+Proof. reflexivity. Qed.
+
+Theorem set_contiguous_post : forall f v t t' st,
+  proper t = true -> set_contiguous f v t = Ok (t', st) -> Post v t t' st.
+Proof.
+  induction f as [|f IH]; intros v t t' st Hp Hres.
+  - destruct t as [s|k cs]; [|discriminate]. rewrite set_contiguous_leaf in Hres. inversion Hres; subst.
+    split; [|split; [constructor|split; [reflexivity|split; [reflexivity|apply Ref_refl]]]].
+    destruct (memn v s) eqn:E; simpl; unfold PureF, PureE; simpl; constructor; auto.
+    + now apply memn_iff.
+    + intros H. apply memn_iff in H. congruence.
+  - destruct t as [s|k cs].
+    { rewrite set_contiguous_leaf in Hres. inversion Hres; subst.
+      split; [|split; [constructor|split; [reflexivity|split; [reflexivity|apply Ref_refl]]]].
+      destruct (memn v s) eqn:E; simpl; unfold PureF, PureE; simpl; constructor; auto.
+      + now apply memn_iff.
+      + intros H. apply memn_iff in H. congruence. }
+    rewrite set_contiguous_node in Hres. apply proper_node_iff in Hp. destruct Hp as [Hn Hpc].
+    destruct (mapM (fun c => rmap fst (set_contiguous f v c)) cs) as [cs1|e] eqn:E1; [|discriminate].
+    simpl rbind in Hres. apply mapM_ok in E1.
+    (* first pass *)
+    assert (H1 : Forall2 (fun c c1 => exists st1, Post v c c1 st1) cs cs1).
+    { clear Hres Hn. induction E1 as [|c c1 cs cs1 Hc E1 IH1]; [constructor|]. inversion Hpc; subst.
+      constructor; [|now apply IH1].
+      destruct (set_contiguous f v c) as [[c1' st1]|e] eqn:Ec; [|discriminate]. simpl in Hc. inversion Hc; subst.
+      exists st1. now apply IH. }
+    assert (Hlen1 : length cs1 = length cs) by (symmetry; exact (Forall2_len' _ _ _ E1)).
+    assert (Ecs2 : match cs1 with [c] => [flat_inplace c] | _ => map flat_ret cs1 end = map flat_ret cs1).
+    { destruct cs1 as [|a [|b r]]; try reflexivity. simpl in Hlen1. lia. }
+    cbv zeta in Hres. rewrite Ecs2 in Hres. clear Ecs2.
+    destruct (mapM (set_contiguous f v) (map flat_ret cs1)) as [res|e] eqn:E2; [|discriminate].
+    simpl rbind in Hres. apply mapM_ok in E2.
+    (* second pass: on flattened trees in v-contiguous form *)
+    assert (H2 : Forall2 (fun c1 r => Post v (flat_ret c1) (fst r) (snd r) /\ proper (fst r) = true) cs1 res).
+    { clear Hres. apply Forall2_map_l in E2. revert E2. clear - H1 IH.
+      intros E2. revert cs H1. induction E2 as [|c1 r cs1 res Hr E2 IH2]; intros cs H1; [constructor|].
+      inversion H1 as [|c ? cs' ? (st1 & HP1) H1']; subst. constructor; [|eapply IH2; eassumption].
+      destruct HP1 as (HS1 & HA1 & _ & _ & _).
+      assert (Hp2 : proper (flat_ret c1) = true) by now apply AlmostProper_flat.
+      destruct r as [c3 st3]. pose proof (IH v (flat_ret c1) c3 st3 Hp2 Hr) as HP2. split; [exact HP2|].
+      destruct HP2 as (_ & _ & HB & _ & _). apply HB. apply CF_flat_ret. now apply (StOK_CF v c1 st1). }
+    set (cs3 := map fst res) in *. set (seq := map snd res) in *.
+    assert (HS3 : Forall2 (StOK v) cs3 seq).
+    { unfold cs3, seq. clear - H2. induction H2 as [|c1 r cs1 res [HP _] H2 IH2]; simpl; constructor; auto. apply HP. }
+    assert (Hp3 : Forall (fun c => proper c = true) cs3).
+    { unfold cs3. clear - H2. induction H2 as [|c1 r cs1 res [_ HP] H2 IH2]; simpl; constructor; auto. }
+    assert (Hrel : Forall2 (fun c c3 => Permutation (ordering c) (ordering c3) /\ Ref c3 c) cs cs3).
+    { unfold cs3. clear - H1 H2. revert res H2. induction H1 as [|c c1 cs cs1 (st1 & HP1) H1 IH1]; intros res H2;
+        inversion H2 as [|? r ? res' [HP2 _] H2']; subst; simpl; constructor; [|now apply IH1].
+      destruct HP1 as (_ & _ & _ & Hperm1 & Href1). destruct HP2 as (_ & _ & _ & Hperm2 & Href2).
+      rewrite ordering_flat_ret in Hperm2. split; [etransitivity; eassumption|].
+      intros o Ho. apply Href1, Ref_flat_ret, Href2, Ho. }
+    assert (Hlen3 : length cs3 = length cs) by (symmetry; exact (Forall2_len' _ _ _ Hrel)).
+    assert (Hn3 : 2 <= length cs3) by lia.
+    assert (HpermAll : Permutation (flat_map ordering cs) (flat_map ordering cs3)).
+    { apply flat_map_perm2. clear - Hrel. induction Hrel as [|c c3 cs cs3 [H _] _ IH]; constructor; auto. }
+    assert (HrefAll : Ref (Node k cs3) (Node k cs)).
+    { apply Ref_node. clear - Hrel. induction Hrel as [|c c3 cs cs3 [_ H] _ IH]; constructor; auto. }
+    destruct k.
+    + (* P *)
+      destruct (p_cases_post v cs3 seq t' st Hn3 Hp3 HS3 Hres) as (HSt & HAl & HB & Hperm & Href).
+      split; [exact HSt|]. split; [exact HAl|]. split; [|split].
+      * intros HCF. apply HB.
+        (* a child without v (or all children full of v) *)
+        assert (Htransfer : forall c, In c cs -> exists c3, In c3 cs3 /\ Permutation (ordering c) (ordering c3)).
+        { clear - Hrel. induction Hrel as [|c c3 cs cs3 [H _] _ IH]; intros x Hx; [destruct Hx|].
+          destruct Hx as [->|Hx]; [exists c3; split; [now left|exact H]|].
+          destruct (IH x Hx) as (y & Hy & HPy). exists y. split; [now right|exact HPy]. }
+        inversion HCF as [? HE|? HF|es c es2 HE HC Heq| |]; subst.
+        -- left. apply Pure_node_E in HE. destruct cs as [|c0 cs']; [simpl in Hn; lia|].
+           destruct (Htransfer c0 (or_introl eq_refl)) as (c3 & Hc3 & HP3).
+           apply (pick_E_nonempty v cs3 seq c3); auto.
+           inversion HE; subst. now apply (proj1 (CF_perm_pure v c0 c3 HP3)).
+        -- right. apply Pure_node_F in HF. apply Forall_forall. intros c3 Hc3.
+           assert (Hback : exists c, In c cs /\ Permutation (ordering c) (ordering c3)).
+           { clear - Hrel Hc3. induction Hrel as [|c c3' cs cs3 [H _] _ IH]; [destruct Hc3|].
+             destruct Hc3 as [->|Hc3]; [exists c; split; [now left|exact H]|].
+             destruct (IH Hc3) as (y & Hy & HPy). exists y. split; [now right|exact HPy]. }
+           destruct Hback as (c & Hc & HPc). rewrite Forall_forall in HF.
+           now apply (proj2 (CF_perm_pure v c c3 HPc)), HF.
+        -- left. assert (Hex : exists e, In e (es ++ es2)).
+           { destruct (es ++ es2) as [|e r] eqn:E0; [|exists e; now left]. exfalso.
+             apply (f_equal (@length pq)) in E0. rewrite app_length in *. simpl in *. lia. }
+           destruct Hex as (e & He). assert (HeE : PureE v e) by (rewrite Forall_forall in HE; auto).
+           assert (Hein : In e (es ++ c :: es2)).
+           { apply in_app_or in He. apply in_or_app. destruct He; [left|right; right]; auto. }
+           destruct (Htransfer e Hein) as (c3 & Hc3 & HP3).
+           apply (pick_E_nonempty v cs3 seq c3); auto. now apply (proj1 (CF_perm_pure v e c3 HP3)).
+      * simpl ordering at 1. etransitivity; eassumption.
+      * intros o Ho. apply HrefAll, Href, Ho.
+    + (* Q *)
+      destruct (q_cases_post v cs3 seq t' st Hn3 Hp3 HS3 Hres) as (HSt & HAl & HB & Hperm & Href).
+      split; [exact HSt|]. split; [exact HAl|]. split; [intros _; now apply HB|]. split.
+      * simpl ordering at 1. etransitivity; eassumption.
+      * intros o Ho. apply HrefAll, Href, Ho.
+Qed.
